@@ -778,6 +778,37 @@ def fresh_subprocess(text, path, root, positions, word, env, cache):
 
 
 # --------------------------------------------------------------------------- fork helper
+def survivor_child(arg):
+    """All results of infer at one position BEFORE Script.infer's set(defs) de-duplication
+    (observation only: the name `set` is shadowed in jedi.api's globals for this child)."""
+    text, path, root, pos, env = arg
+    jedi = _child_setup(os.path.join(root, 'cwd'))
+    import jedi.api as japi
+    japi.set = list
+    script = _script(jedi, text, path, env)
+    return _canon('infer', script.infer(pos[0], pos[1]), root)
+
+
+def _survivor_explains(rows_all, hv, fv):
+    """hv and fv are two choices of one survivor per Name.__eq__ class of the same enumeration, and
+    some class has two members that look different (C16_infer_survivor_refuted)."""
+    if not (isinstance(rows_all, list) and isinstance(hv, list) and isinstance(fv, list)):
+        return False
+    if any(not isinstance(r, list) for r in rows_all + hv + fv):
+        return False
+    ident = lambda r: json.dumps([r[0], r[3], r[4], r[5]])
+    groups = {}
+    for r in rows_all:
+        groups.setdefault(ident(r), set()).add(json.dumps(r))
+    if not any(len(g) > 1 for g in groups.values()):
+        return False
+    for out in (hv, fv):
+        ks = [ident(r) for r in out]
+        if sorted(ks) != sorted(groups) or any(json.dumps(r) not in groups[ident(r)] for r in out):
+            return False
+    return True
+
+
 def forked_call(fn, arg, timeout=900):
     """Run fn(arg) in a forked child and return its JSON-able result.  The caller must never
     have parsed anything with parso/jedi, so the child starts from a pristine jedi."""
@@ -850,7 +881,7 @@ def _work(item):
     """pmap worker entry.  The worker itself never creates a Script; every job runs in its own child."""
     _prewarm()
     kind, arg = item
-    fn = {'session': session_child, 'fresh': fresh_child, 'trace': trace_child}[kind]
+    fn = {'session': session_child, 'fresh': fresh_child, 'trace': trace_child, 'survivor': survivor_child}[kind]
     return forked_call(fn, arg)
 
 
@@ -892,6 +923,20 @@ def _compare_step(sres, fres):
 def _both_crash_stack_dependent(a, b):
     return (isinstance(a, str) and isinstance(b, str) and a.startswith('EXC:') and b.startswith('EXC:')
             and (a.startswith('EXC:RecursionError') or b.startswith('EXC:RecursionError')))
+
+
+def _reproducible(sess, root, step_i, key, fresh_val, tries=2):
+    """Does the identical history (in a process of its own) differ from the fresh answer every time?"""
+    _prewarm()
+    cur = dict(sess, steps=[dict(s) for s in sess['steps'][:step_i + 1]])
+    for _ in range(tries):
+        r = forked_call(session_child, (cur, root, None), timeout=1200)
+        if r[0] != 'ok':
+            return True
+        last = r[1][-1]
+        if last['answers'].get(key, '<missing>') == fresh_val:
+            return False
+    return True
 
 
 def shrink_session(ctx, sess, root, step_i, key, fresh_val, budget=40):
@@ -1096,6 +1141,38 @@ def stream_history(ctx):
     ctx.stat('history_queries_crashing_in_both_with_a_stack_overflow_on_one_side_not_compared', n_crash_pairs)
     ctx.stat('history_signature_cache_hits_across_scripts', n_sig_hits)
     ctx.stat('history_distinct_fresh_evaluations', len(fkeys))
+    # A difference is attributed to the HISTORY only if the same history reproduces it.  When a re-run
+    # of the identical session (own process) gives the fresh answer, one history has produced both
+    # answers: the cause is run-to-run nondeterminism (which duplicate of a value set survives
+    # de-duplication depends on object addresses - C16's listed findings), and comparing with a fresh
+    # process says nothing about staleness.  Counted, not reported here.
+    kept, n_nondet = [], 0
+    # infer differences that are two choices of the survivor of Script.infer's set(defs): the C16
+    # defect (which equal-under-__eq__ result survives follows object addresses, i.e. what the process
+    # allocated before).  Listed known finding, classified by re-enumerating the value set.
+    for s, (i, diffs) in failing:
+        st = s['steps'][i]
+        for (k, hv, fv) in list(diffs):
+            m = re.match(r'infer@(\d+),(\d+)$', k)
+            if not m:
+                continue
+            path = _buf_path(root_of[s['id']], s['buffers'][st['buf']])
+            r = _work(('survivor', (st['text'], path, root_of[s['id']], [int(m.group(1)), int(m.group(2))], s['env'])))
+            if r[0] == 'ok' and _survivor_explains(r[1], hv, fv):
+                diffs.remove((k, hv, fv))
+                ctx.deviation(dict(stream='history', cls='infer-set-survivor', predicted=True),
+                              dict(session=_strip(dict(s, steps=s['steps'][:i + 1])), step=i, query=k, in_history=hv,
+                                   fresh=fv, enumeration_before_dedup=r[1]),
+                              'infer at %s: history and fresh process keep different survivors of set(defs)' % k)
+    failing = [(s, (i, d)) for (s, (i, d)) in failing if d]
+    for s, (i, diffs) in failing:
+        diffs2 = [(k, hv, fv) for (k, hv, fv) in diffs
+                  if _reproducible(s, root_of[s['id']], i, k, fv)]
+        n_nondet += len(diffs) - len(diffs2)
+        if diffs2:
+            kept.append((s, (i, diffs2)))
+    failing = kept
+    ctx.stat('history_differences_not_reproduced_by_the_same_history_nondeterministic_not_reported', n_nondet)
     for s, (i, diffs) in failing[:6]:
         key, hv, fv = diffs[0]
         root = root_of[s['id']]
